@@ -28,6 +28,9 @@ def jobs(pid, tier):
         J.append(Job('k8_gc', dict(N=4, L=2, roots=0, nondet=True), need_outcomes=['collected']))
         J.append(Job('k9_undeclare', dict(N=4, L=3), need_outcomes=['removed', 'refused']))
         J.append(Job('k10_addvar', dict(N=4, L=2), need_outcomes=['added', 'idempotent', 'refused']))
+        # other construction routes (every route gives the canonical reference)
+        J.append(Job('let', dict(N=3, L=3, kinds=['rename']), need_outcomes=['returned:rename']))
+        J.append(Job('copy', dict(N=4, L=3, NT=2, extra=0, variants=['copy_bdd']), need_outcomes=['returned:copy_bdd']))
         if not q:
             J.append(Job('k7_swap', dict(N=5, L=3, x=0, K=3), need_outcomes=['swapped']))
             J.append(Job('k8_gc', dict(N=5, L=3, roots=0, nondet=False), need_outcomes=['collected']))
@@ -55,6 +58,10 @@ def jobs(pid, tier):
         J.append(Job('parse', dict(alphabet='prop', maxlen=8 if q else 9, nv=5), need_outcomes=['accepted', 'rejected']))
         J.append(Job('parse', dict(alphabet='binders', maxlen=6 if q else 7, nv=3), need_outcomes=['accepted', 'rejected']))
         J.append(Job('parse', dict(alphabet='ite', maxlen=9 if q else 11, nv=5), need_outcomes=['accepted', 'rejected']))
+        if q:
+            J.append(Job('parse', dict(alphabet='subst2', maxlen=10, nv=2), need_outcomes=['accepted', 'rejected']))
+        else:
+            J.append(Job('parse', dict(alphabet='subst', maxlen=11, nv=3), need_outcomes=['accepted', 'rejected']))
     if pid == 'C06':
         J.append(Job('k8_gc', dict(N=4, L=2, roots=0, nondet=True), need_outcomes=['collected', 'nothing_to_collect']))
         J.append(Job('k8_gc', dict(N=5, L=3, roots=0, nondet=not q), need_outcomes=['collected', 'nothing_to_collect']))
@@ -73,6 +80,8 @@ def jobs(pid, tier):
             J.append(Job('k7_swap', dict(N=5, L=3, x=0, K=3), need_outcomes=['swapped']))
             J.append(Job('k7_swap', dict(N=5, L=3, x=1, K=3, by='reversed'), need_outcomes=['swapped']))
             J.append(Job('sched', dict(L=4, kinds=['sift', 'to_order', 'to_pairs']), need_outcomes=['done:sift']))
+    if pid == 'C09':
+        J.append(Job('dynreorder', dict(N=3, L=2, fires=1), need_outcomes=['fired:ite', 'quiet:ite', 'fired:quantify']))
     if pid == 'C10':
         J.append(Job('sat', dict(N=4, L=2), need_outcomes=['returned:' + e for e in
                      ('support', 'essential', 'count', 'pick_iter', 'pick')]))
@@ -83,17 +92,19 @@ def jobs(pid, tier):
                      ('copy_bdd', 'BDD.copy', '_copy.copy_bdd', '_copy.copy_bdds_from', 'autoref.copy')]))
         J.append(Job('copy', dict(N=3, L=2, NT=3, extra=1, variants=['copy_bdd', '_copy.copy_bdd']),
                      need_outcomes=['returned:copy_bdd']))
-        if not q:
-            J.append(Job('copy', dict(N=4, L=3, NT=3, extra=0, variants=['copy_bdd', '_copy.copy_bdd']),
-                         need_outcomes=['returned:copy_bdd']))
+        J.append(Job('copy', dict(N=4, L=3, NT=2 if q else 3, extra=0, variants=['copy_bdd'] if q else ['copy_bdd', '_copy.copy_bdd']),
+                     need_outcomes=['returned:copy_bdd']))
     if pid == 'C12':
         J.append(Job('pickle_rt', dict(N=4, L=2, NT=3), need_outcomes=['loaded:' + v for v in
                      ('fresh_list', 'fresh_dict', 'fresh_rootless', 'declared_same', 'declared_other_nolevels', 'manager')] + ['refused']))
     if pid == 'C13':
         J.append(Job('image', dict(N=4, L=2, styles=['names']), need_outcomes=['returned:preimage', 'returned:image']))
         J.append(Job('image', dict(N=3, L=2, styles=['levels']), need_outcomes=['returned:preimage', 'returned:image']))
+        J.append(Job('image', dict(N=4, L=4, which=['preimage'], minpairs=2, maxpairs=2, styles=['levels'],
+                               qsets='values', foralls=[0], forward_only=q),
+                     need_outcomes=['returned:preimage']))
         if not q:
-            J.append(Job('image', dict(N=4, L=3, maxpairs=1, styles=['names']),
+            J.append(Job('image', dict(N=3, L=3, maxpairs=1, styles=['names']),
                          need_outcomes=['returned:preimage', 'returned:image', 'returned:image_nonadjacent']))
     if pid == 'C14':
         J.append(Job('k10_addvar', dict(N=4, L=2), need_outcomes=['added', 'idempotent', 'refused']))
